@@ -13,7 +13,11 @@ claim('C19', 'gate dominance (edge cuts) + path-argument provenance + walk/resol
       'Exact for the clauses decided: all 9 fs mutation sites in the web IDE are dominated by write_enabled and the editor-session gate; all 17 fs call sites take paths from the resolver (or walk-vetted names); walks and resolver do not follow symlinks; normaliser table rejects hidden/parent/root/prefix components; apply_source checks version, writes and bumps under one lock region. Path-string and session quantifiers are covered because the rules hold on every CFG path; interleavings are covered only through the lock-region clause.',
       _TB, 'DESIGN.md section 4 / C19')
 
+claim('C01', 'path-sensitive acquire/release pairing + arithmetic-assert discharge + reachable-panic table + loop/budget SCC rule + table agreement over rustc MIR/HIR',
+      'Partial: decides frame push/pop and debug-hook take/restore pairing on every CFG exit of the 5 pushing functions; discharges or reviews every one of the ~130 overflow/neg/div-by-zero assert sites in the evaluator core; freezes the 28 explicit panic sites reachable from execute_cycle; budget check in every interpreter loop and FOR step-zero gate; checker/lowering/interpreter CASE selector tables; compile gate on parse errors and error diagnostics. Not decided: termination of user loops, stack depth of user recursion, implicit bounds checks, full checker/lowering agreement.',
+      _TB, 'DESIGN.md section 4 / C01')
+
 _PENDING = 'check not built yet in this commit (work in progress; see DESIGN.md section 10 for the build order)'
-for _p in ['C01','C02','C03','C04','C05','C06','C07','C08','C09','C10','C11','C12','C13','C14','C16','C17','C20']:
+for _p in ['C02','C03','C04','C05','C06','C07','C08','C09','C10','C11','C12','C13','C14','C16','C17','C20']:
     na(_p, _PENDING)
 na('C15', 'formatting token-sequence preservation and idempotence are equalities between values computed by string manipulation; no shape-of-code fact is a necessary condition that a realistic breaking edit would violate (DESIGN.md section 5)')
